@@ -128,6 +128,10 @@ func (vt *Model) decset(params [][]int) {
 			vt.decsc()
 			vt.activeScreen = vt.altScreen
 			vt.mode.smcup = true
+			// The alternate screen is cleared when it is entered, with
+			// the background colour in effect now (it was last erased
+			// with whatever was current when it was left)
+			vt.ed(2)
 			// Enable altScroll in the alt screen. This is only used
 			// if the application doesn't enable mouse
 			vt.mode.altScroll = true
